@@ -1197,6 +1197,17 @@ func (f *FuncVC) resolveMods(ev *Eval, mods []ModTarget) []resolvedMod {
 		switch m.Kind {
 		case "all":
 			out = append(out, resolvedMod{kind: "all", text: m.Text})
+		case "alltype", "allelems":
+			t := ev.resolveType(m.Expr)
+			if t == nil {
+				ev.fail("modifies %s: unknown type", m.Text)
+				continue
+			}
+			if m.Kind == "alltype" {
+				out = append(out, resolvedMod{kind: "heap", heap: structHeapPrefix(t), text: m.Text})
+			} else {
+				out = append(out, resolvedMod{kind: "heap", heap: elemHeapPrefix(t), text: m.Text})
+			}
 		case "fields":
 			v := ev.evalPure(m.Expr)
 			if v.K == KPtr && v.P != nil && len(v.P.Base) == 2 && len(v.P.Path) == 0 && v.P.Heap != "" {
